@@ -85,6 +85,8 @@ def run(rep):
         if any(names.clashes(case)):
             stat["nontrivial"] += 1
         spec, corr = names.compare_case(case, variant, obs, model)
+        if case.get("no_model"):
+            corr = None   # calls that wait for a type need two passes: outside the single registerAll of the model
         if spec:
             spec_bad.append((spec, case, variant, obs, line))
         if corr:
